@@ -1348,3 +1348,160 @@ Lemma float_range_refuted :
   literal_of_tokens w_parse_float w_int_to_float [(T_NUMBER, [49; 101; 57; 57; 57])]
   = LOk (OLit (format_string [49; 101; 57; 57; 57])).
 Proof. vm_compute. reflexivity. Qed.
+
+(* ========================================================================================== *)
+(* H. the fuel of the token parser is never exhausted, on any token list *)
+
+Section Total.
+Variable parse_float : list N -> option fval.
+Variable int_to_float : N -> fval.
+Notation pl := (parse_lit parse_float int_to_float).
+Notation pe := (parse_elems parse_float int_to_float).
+
+Lemma parse_lit_S : forall f cur rest,
+  pl (S f) (cur :: rest) =
+  let t := fst cur in
+  if t =? T_NUMBER then with_follow (ELit (parse_number parse_float int_to_float (snd cur))) rest
+  else if t =? T_STRING then with_follow (ELit (VStr (snd cur) false)) rest
+  else if t =? T_MINUS then
+    match rest with
+    | [] => LOutOfFragment LoofMinusOperand
+    | x :: rest' =>
+        if fst x =? T_NUMBER then
+          if peek_tok rest' T_COLONCOLON then LOutOfFragment LoofMinusCast
+          else with_follow (ENeg (parse_number parse_float int_to_float (snd x))) rest'
+        else if fst x =? T_STRING then with_follow (ENeg (VStr (snd x) false)) rest'
+        else LOutOfFragment LoofMinusOperand
+    end
+  else if t =? T_LBRACKET then
+    match rest with
+    | [] => LOutOfFragment LoofSyntax
+    | x :: rest' =>
+        if fst x =? T_RBRACKET then with_follow (ELit (VArr [])) rest'
+        else
+          lbind (pl f rest) (fun '(e, ts1) =>
+          lbind (pe f T_RBRACKET [e] ts1) (fun '(es, ts2) =>
+          with_follow (ELit (VArr es)) ts2))
+    end
+  else if t =? T_LPAREN then
+    match rest with
+    | [] => LOutOfFragment LoofPrefix
+    | x :: rest' =>
+        if fst x =? T_RPAREN then with_follow (ELit (VTup [])) rest'
+        else if (fst x =? T_SELECT) || (fst x =? T_WITH) || (fst x =? T_EXPLAIN)
+        then LOutOfFragment LoofSubquery
+        else
+          lbind (pl f rest) (fun '(e, ts1) =>
+          if peek_tok ts1 T_COMMA then
+            lbind (pe f T_RPAREN [e] ts1) (fun '(es, ts2) =>
+            with_follow (ELit (VTup es)) ts2)
+          else if peek_tok ts1 T_RPAREN then LOutOfFragment LoofParen
+          else LOutOfFragment LoofSyntax)
+    end
+  else if t =? T_LINE_COMMENT then LOutOfFragment LoofComment
+  else LOutOfFragment LoofPrefix.
+Proof. reflexivity. Qed.
+
+Lemma parse_elems_S : forall f close acc c rest,
+  pe (S f) close acc (c :: rest) =
+  if fst c =? T_COMMA then
+    if peek_tok rest close then LOk (rev acc, List.tl rest)
+    else lbind (pl f rest) (fun '(e, ts1) => pe f close (e :: acc) ts1)
+  else if fst c =? close then LOk (rev acc, rest)
+  else LOutOfFragment LoofSyntax.
+Proof. reflexivity. Qed.
+
+Lemma with_follow_shape : forall e ts r, with_follow e ts = r ->
+  r = LOk (e, ts) \/ exists x, r = LOutOfFragment x.
+Proof. intros e ts r <-. unfold with_follow. destruct (follow_tok ts); [left; reflexivity|right; eexists; reflexivity]. Qed.
+
+Definition lit_good (fuel : nat) (ts : list tk) : Prop :=
+  pl fuel ts <> LOutOfFuel /\ forall e ts', pl fuel ts = LOk (e, ts') -> (length ts' < length ts)%nat.
+Definition elems_good (fuel : nat) (ts : list tk) : Prop :=
+  forall close acc, pe fuel close acc ts <> LOutOfFuel /\
+    forall es ts', pe fuel close acc ts = LOk (es, ts') -> (length ts' < length ts)%nat.
+
+Ltac wf_case :=
+  match goal with
+  | |- context [with_follow ?e ?ts] =>
+      let r := fresh "r" in let E := fresh "E" in
+      destruct (with_follow_shape e ts _ eq_refl) as [E|[? E]]; rewrite E;
+      (split; [discriminate|intros ? ? Hq; inversion Hq; subst; cbn [length]; lia])
+  end.
+
+Lemma parse_good : forall fuel,
+  (forall ts, (2 * length ts < fuel)%nat -> lit_good fuel ts) /\
+  (forall ts, (2 * length ts < fuel)%nat -> elems_good fuel ts).
+Proof.
+  induction fuel as [|f [IHl IHe]]; [split; intros ts H; lia|].
+  assert (Hoof : forall (A : Type) (x : loof) (n : nat),
+            (@LOutOfFragment A x <> LOutOfFuel) /\ (forall (e : A), LOutOfFragment x = LOk e -> (n < n)%nat)).
+  { intros; split; [discriminate|intros e Hq; discriminate]. }
+  split.
+  - intros ts Hf. unfold lit_good. destruct ts as [|cur rest].
+    { cbn [parse_lit]. split; [discriminate|intros e ts' Hq; discriminate]. }
+    cbn [length] in Hf. rewrite parse_lit_S. cbv zeta.
+    destruct (fst cur =? T_NUMBER). { wf_case. }
+    destruct (fst cur =? T_STRING). { wf_case. }
+    destruct (fst cur =? T_MINUS).
+    { destruct rest as [|x rest']; [split; [discriminate|intros ? ? Hq; discriminate]|].
+      destruct (fst x =? T_NUMBER).
+      { destruct (peek_tok rest' T_COLONCOLON); [split; [discriminate|intros ? ? Hq; discriminate]|]. wf_case. }
+      destruct (fst x =? T_STRING); [wf_case|split; [discriminate|intros ? ? Hq; discriminate]]. }
+    destruct (fst cur =? T_LBRACKET).
+    { destruct rest as [|x rest']; [split; [discriminate|intros ? ? Hq; discriminate]|].
+      destruct (fst x =? T_RBRACKET). { wf_case. }
+      destruct (IHl (x :: rest') ltac:(cbn [length] in *; lia)) as [Hn Hs].
+      destruct (pl f (x :: rest')) as [[e ts1]| |] eqn:E1; cbn [lbind];
+        [|split; [discriminate|intros ? ? Hq; discriminate]|contradiction].
+      specialize (Hs e ts1 eq_refl).
+      destruct (IHe ts1 ltac:(cbn [length] in *; lia) T_RBRACKET [e]) as [Hn2 Hs2].
+      destruct (pe f T_RBRACKET [e] ts1) as [[es ts2]| |] eqn:E2; cbn [lbind];
+        [|split; [discriminate|intros ? ? Hq; discriminate]|contradiction].
+      specialize (Hs2 es ts2 eq_refl).
+      destruct (with_follow_shape (ELit (VArr es)) ts2 _ eq_refl) as [E|[? E]]; rewrite E;
+        (split; [discriminate|intros ? ? Hq; inversion Hq; subst; cbn [length] in *; lia]). }
+    destruct (fst cur =? T_LPAREN).
+    { destruct rest as [|x rest']; [split; [discriminate|intros ? ? Hq; discriminate]|].
+      destruct (fst x =? T_RPAREN). { wf_case. }
+      destruct ((fst x =? T_SELECT) || (fst x =? T_WITH) || (fst x =? T_EXPLAIN));
+        [split; [discriminate|intros ? ? Hq; discriminate]|].
+      destruct (IHl (x :: rest') ltac:(cbn [length] in *; lia)) as [Hn Hs].
+      destruct (pl f (x :: rest')) as [[e ts1]| |] eqn:E1; cbn [lbind];
+        [|split; [discriminate|intros ? ? Hq; discriminate]|contradiction].
+      specialize (Hs e ts1 eq_refl).
+      destruct (peek_tok ts1 T_COMMA).
+      - destruct (IHe ts1 ltac:(cbn [length] in *; lia) T_RPAREN [e]) as [Hn2 Hs2].
+        destruct (pe f T_RPAREN [e] ts1) as [[es ts2]| |] eqn:E2; cbn [lbind];
+          [|split; [discriminate|intros ? ? Hq; discriminate]|contradiction].
+        specialize (Hs2 es ts2 eq_refl).
+        destruct (with_follow_shape (ELit (VTup es)) ts2 _ eq_refl) as [E|[? E]]; rewrite E;
+          (split; [discriminate|intros ? ? Hq; inversion Hq; subst; cbn [length] in *; lia]).
+      - destruct (peek_tok ts1 T_RPAREN); split; try discriminate; intros ? ? Hq; discriminate. }
+    destruct (fst cur =? T_LINE_COMMENT); split; try discriminate; intros ? ? Hq; discriminate.
+  - intros ts Hf close acc. destruct ts as [|c rest].
+    { cbn [parse_elems]. split; [discriminate|intros ? ? Hq; discriminate]. }
+    cbn [length] in Hf. rewrite parse_elems_S.
+    destruct (fst c =? T_COMMA).
+    + destruct (peek_tok rest close).
+      * split; [discriminate|]. intros es ts' Hq. inversion Hq; subst. destruct rest; cbn [tl length]; lia.
+      * destruct (IHl rest ltac:(lia)) as [Hn Hs].
+        destruct (pl f rest) as [[e ts1]| |] eqn:E1; cbn [lbind];
+          [|split; [discriminate|intros ? ? Hq; discriminate]|contradiction].
+        specialize (Hs e ts1 eq_refl).
+        destruct (IHe ts1 ltac:(lia) close (e :: acc)) as [Hn2 Hs2].
+        split; [exact Hn2|]. intros es ts' Hq. specialize (Hs2 es ts' Hq). cbn [length]. lia.
+    + destruct (fst c =? close).
+      * split; [discriminate|]. intros es ts' Hq. inversion Hq; subst. cbn [length]. lia.
+      * split; [discriminate|intros ? ? Hq; discriminate].
+Qed.
+
+Theorem literal_of_tokens_total : forall ts, literal_of_tokens parse_float int_to_float ts <> LOutOfFuel.
+Proof.
+  intros ts. unfold literal_of_tokens.
+  match goal with |- context [existsb ?g ts] => destruct (existsb g ts); [discriminate|] end.
+  destruct (proj1 (parse_good (lit_fuel ts)) ts ltac:(unfold lit_fuel; lia)) as [Hn _].
+  destruct (parse_lit parse_float int_to_float (lit_fuel ts) ts) as [[e rest]| |]; cbn [lbind];
+    [destruct rest; discriminate|discriminate|contradiction].
+Qed.
+End Total.
